@@ -1,17 +1,17 @@
-"""C02 / C03 / C01, bridge between the tensor WEIGHTS form the implementation computes (computeTensorWeights; GridGlobal::evaluate /
-getInterpolationWeights / getQuadratureWeights: sum over the tensors of w(t) * tensor rule of level t) and the DIFFERENCE form the
-exactness and interpolation theorems are stated in (comb_exact, Aop).
+"""C02 / C03, goal (A) of the tensor-weights bridge: tw_cpp = tw_lines.  The model tw_cpp mirrors the control flow of
+MultiIndexManipulations::computeTensorWeights + resortIndexes (per-dimension std::sort of the positions, run boundaries lines1d cut with
+match_outside_dim against the first index of the run, initial pass, in-place backward sweeps by position); tw_lines is the model the
+theorems of Properties_C02_weights are about.
 
-Theorems: coq/Props/Properties_C02_bridge.v (proofs coq/Proofs/TensorWeightsBridge.v, on top of Proofs/TensorWeightsProofs.v,
-Proofs/CombinationProofs.v and Proofs/GlobalNestedInterp.v):
-  (B) any commutative ring, any one-dimensional families, every duplicate-free lower set:  sum_t inj(w(t)) prod_j f_j(t_j) = sum_t prod_j
-      (f_j(t_j) - f_j(t_j - 1)), with w = the inclusion-exclusion value = the computed weight; hence comb_exact for the weights form;
-  (C) the same for the Lagrange tensor interpolants: the weights form of GridGlobal::evaluate equals Aop and reproduces the loaded values;
-  (A) tw_cpp = tw_lines here only for D = 1 (the FULL statement, every D, is proved in Props/Properties_C02_cpp.v, props/c02cpp.py); for D >= 2 checked by vm_compute on every sub-list of small boxes (Examples) and by the
-      executable tie of props/c02weights.py.
+Theorems: coq/Props/Properties_C02_cpp.v (proofs coq/Proofs/TensorWeightsCpp.v, on top of Proofs/TensorWeightsProofs.v):
+  c02c_tw_cpp_eq_tw_lines            every lexicographically sorted set of one dimension D >= 1 (lower or not): tw_cpp s = tw_lines s
+  c02c_tw_cpp_inclusion_exclusion    sorted non-empty lower sets of non-negative indexes: tw_cpp s = map (incl_excl s) s
+  components: the insertion sort returns the sorted permutation; map[d] is the sorted permutation of the positions; the runs are the
+  lines (neighbour in a run = first later member of the line); one direction / the initial pass of the C++ loop = sweep_dim / init_lines
+  read by position.
 No executable tie of its own: the tie of the weights is props/c02weights.py (tw_cpp, tw_lines against the implementation).
 
-Used through run(res); stand-alone:  python3 props/c02bridge.py   (exit 0/1, nothing written under evidence/)."""
+Used through run(res); stand-alone:  python3 props/c02cpp.py   (exit 0/1, nothing written under evidence/)."""
 import json
 import os
 import re
@@ -22,24 +22,23 @@ sys.path.insert(0, os.path.join(os.path.dirname(os.path.dirname(os.path.abspath(
 import vlib  # noqa: E402
 
 PID = "C02"
-SUB = "C02_bridge"
-WORK = "tw2"
-FILES = ["coq/Proofs/TensorWeightsBridge.v", "coq/Props/Properties_C02_bridge.v"]
-REQUIRED = ["c02b_index_conversion", "c02b_weights_are_computed", "c02b_weights_form_is_difference_form", "c02b_weights_form_dprod",
-            "c02b_weights_form_exact", "c02b_evaluate_weights_form_is_difference_form", "c02b_evaluate_weights_form_reproduces",
-            "c02b_tw_cpp_eq_tw_lines_partial"]
-REQUIRED_EXAMPLES = ["c02b_cpp_eq_lines_box_2x2", "c02b_cpp_eq_lines_box_3x2", "c02b_cpp_eq_lines_box_1x1x1", "c02b_cpp_eq_lines_box_2x1x1",
-                     "c02b_cpp_incl_excl_lower_sets", "c02b_ex_hyps", "c02b_ex_ring_Z", "c02b_ex_by_theorem", "c02b_ex_global_off_grid",
-                     "c02b_ex_global_grid_points", "c02b_ex_global_by_theorem"]
+SUB = "C02_cpp"
+WORK = "tw3"
+FILES = ["coq/Proofs/TensorWeightsCpp.v", "coq/Props/Properties_C02_cpp.v"]
+REQUIRED = ["c02c_tw_cpp_eq_tw_lines", "c02c_tw_cpp_inclusion_exclusion", "c02c_sort_pos_sorted_permutation", "c02c_map_d_sorted_permutation",
+            "c02c_lines_d_are_the_lines", "c02c_sweep_dim_cpp_is_sweep_dim", "c02c_init_cpp_is_init_lines"]
+REQUIRED_EXAMPLES = ["c02c_ex_hyps", "c02c_ex_maps", "c02c_ex_lines", "c02c_ex_by_computation", "c02c_ex_by_theorem", "c02c_ex_lower_hyps",
+                     "c02c_ex_lower_by_computation", "c02c_ex_lower_by_theorem"]
 FORBIDDEN = re.compile(r"\b(Axiom|Axioms|Parameter|Parameters|Conjecture|Admitted|admit|Abort|Unset\s+Guard|Unset\s+Positivity|bypass_check)\b")
 
 TRUSTED = [
     "Coq 8.16.1 kernel (vm_compute in the Examples only); axioms: none (Print Assumptions: closed under the global context)",
-    "the reading of GridGlobal::evaluate / getQuadratureWeights as sum over the tensors of w(t) * tensor product of the one-dimensional rules "
-    "of level t_j; exact ring arithmetic (any commutative ring; Qc for the interpolant), not binary64; `int` overflow of the weights not modelled",
-    "hypotheses of the theorems: Theta duplicate free, of one dimension, lower; for (C) pairwise distinct nested nodes, n(0) >= 1, n strictly increasing",
-    "tw_cpp = tw_lines is proved in this file only for D = 1 (in full in Props/Properties_C02_cpp.v); for D >= 2: vm_compute on all sub-lists of the boxes named in the Examples, and the executable tie of "
-    "props/c02weights.py",
+    "tw_cpp is a model of computeTensorWeights / resortIndexes: std::sort is modelled by an insertion sort (proved: on a sorted set the comparator "
+    "is a strict total order on the positions, so the sorted permutation is unique and the algorithm does not matter); the omp parallel loops "
+    "over dimensions / jobs are modelled sequentially (proved: the runs of one direction touch disjoint positions); `int` overflow not modelled",
+    "the agreement of tw_cpp (and tw_lines) with the compiled implementation is the executable tie of props/c02weights.py, not a theorem",
+    "hypotheses: the set is lexicographically sorted (StronglySorted for cmp = ABeforeB, hence duplicate free) and all indexes have length D >= 1; "
+    "for the inclusion-exclusion corollary also: non-negative, lower, not empty",
 ]
 
 
@@ -77,7 +76,7 @@ def forbidden_tokens():
 def run(res, tier="quick", seed=1):
     t0 = time.time()
     cov = {}
-    res.coverage["weights_bridge"] = cov
+    res.coverage["weights_cpp_model"] = cov
     props = vlib.coq_props(SUB)
     src = strip_comments(open(os.path.join(vlib.ROOT, FILES[1])).read())
     examples = re.findall(r"^\s*Example\s+(\w+)", src, re.M)
@@ -91,14 +90,14 @@ def run(res, tier="quick", seed=1):
     cov.update({"props_file": FILES[1], "proof_file": FILES[0], "obligations": props["obligations"], "discharged": props["discharged"],
                 "theorems": props["theorems"], "examples": examples, "print_assumptions": props["assumptions"],
                 "forbidden_tokens": forb, "trusted_base": TRUSTED,
-                "checker_cmd": "cd coq && make Props/Properties_C02_bridge.vo && coqc -Q . TV Props/Properties_C02_bridge.v",
+                "checker_cmd": "cd coq && make Props/Properties_C02_cpp.vo && coqc -Q . TV Props/Properties_C02_cpp.v",
                 "executable_tie": "none of its own; the weights are tied by props/c02weights.py (tw_cpp and tw_lines against computeTensorWeights)"})
     broken = (not props["ok"]) or bool(bad_axioms) or bool(missing) or bool(unprinted) or bool(forb) or bool(not_exact) \
         or props["discharged"] != props["obligations"]
     if broken:
         why = []
         if not props["ok"]:
-            why.append("Properties_C02_bridge.v does not compile (%d/%d)" % (props["discharged"], props["obligations"]))
+            why.append("Properties_C02_cpp.v does not compile (%d/%d)" % (props["discharged"], props["obligations"]))
         if bad_axioms:
             why.append("not closed under the global context: %s" % sorted(bad_axioms)[:3])
         if missing:
@@ -109,7 +108,7 @@ def run(res, tier="quick", seed=1):
             why.append("forbidden constructs: %s" % forb[:3])
         if not_exact:
             why.append("theorems not closed by `exact`: %s" % not_exact[:3])
-        res.violation("weights-bridge-theorems-broken", "the theorems of the weights-form / difference-form bridge no longer check: " + "; ".join(why),
+        res.violation("weights-cpp-theorems-broken", "the theorems tw_cpp = tw_lines (model of the C++ control flow = the lines model) no longer check: " + "; ".join(why),
                       {"kind": "proof-break", "theorems": props["theorems"], "log": props["log"][-3000:]}, no_input=True)
     cov["wall_s"] = round(time.time() - t0, 1)
     return not broken
@@ -120,12 +119,12 @@ def main():
     try:
         run(res)
     except vlib.BuildError as e:
-        res.violation("weights-bridge-theorems-broken", "build failed: " + str(e)[:1500], {"kind": "build-failure", "detail": str(e)}, no_input=True)
-    cov = res.coverage.get("weights_bridge", {})
+        res.violation("weights-cpp-theorems-broken", "build failed: " + str(e)[:1500], {"kind": "build-failure", "detail": str(e)}, no_input=True)
+    cov = res.coverage.get("weights_cpp_model", {})
     wd = os.path.join(vlib.BUILD, "work", WORK)
     os.makedirs(wd, exist_ok=True)
     with open(os.path.join(wd, "evidence-standalone.json"), "w") as fh:
-        json.dump({"property_id": PID, "part": "weights_bridge", "coverage": cov, "violations": len(res.violations),
+        json.dump({"property_id": PID, "part": "weights_cpp_model", "coverage": cov, "violations": len(res.violations),
                    "known": [k for k, _ in res.known_hit]}, fh, indent=1, default=str)
     for key, text in res.known_hit:
         print("KNOWN-FINDING: property=%s key=%s %s" % (PID, key, text))
